@@ -88,6 +88,8 @@ def gen_cases(ctx):
     def add(mesh, simu, load, sel, kinds=("const", "poly", "nodal"), **kw):
         dim = 2 if mesh["kind"] == "2d" else 3 if mesh["kind"] == "3d" else 1
         unknowns_all = {"Elastic": ["x", "y", "z"][:dim], "Thermal": ["t"], "Beam": ["x", "y", "rz"]}[simu]
+        if simu == "Beam":
+            order["SEG2"] = 1
         for kind in kinds:
             c = {"id": len(cases), "mesh": mesh, "simu": simu, "load": load, "selection": sel,
                  "thickness": rng.choice([0.5, 2.0, 3.0]) if dim == 2 else 1.0, "vkind": kind}
@@ -98,7 +100,8 @@ def gen_cases(ctx):
                     continue
             else:
                 k = rng.randint(1, len(unknowns_all)) if simu == "Elastic" else 1
-                c["unknowns"] = rng.sample(unknowns_all, k) if simu == "Elastic" else kw.get("unknowns", unknowns_all[:1])
+                # partial lists in random order (Elastic); explicit orderings for beams
+                c["unknowns"] = rng.sample(unknowns_all, k) if simu == "Elastic" else list(kw.get("unknowns", unknowns_all[:1]))
                 deg = 0 if kind == "const" else order[mesh["elemType"]]
                 vals = []
                 for _ in c["unknowns"]:
@@ -108,6 +111,9 @@ def gen_cases(ctx):
                         vals.append({"kind": kind, "coeffs": rand_poly(rng, deg, dim)})
                 c["values"] = vals
             c.update({k: v for k, v in kw.items() if k != "unknowns"})
+            if load != "point" and rng.random() < 0.6:
+                # the selection is a set: repeated ids and arbitrary order must not matter
+                c["selection"] = dict(sel, dup={"seed": rng.randrange(1 << 30), "n": rng.choice([0, 1, 2, 5])})
             cases.append(c)
 
     nrep = 1 if quick else 3
@@ -121,7 +127,11 @@ def gen_cases(ctx):
             bnd_rand = {"type": "random", "frac": 0.7, "seed": rng.randrange(1 << 30), "within": face}
             box = {"type": "box", "lo": [0.5, 0, 0], "hi": [1.5, 1, 0]}
             rnd = {"type": "random", "frac": 0.8, "seed": rng.randrange(1 << 30)}
+            bottom = {"type": "face", "axis": 1, "value": 0}
+            two_edges = {"type": "concat", "parts": [bottom, face]}      # corner node listed twice
             add(m, "Elastic", "surf", face)
+            add(m, "Elastic", "surf", two_edges, kinds=("const", "poly"))
+            add(m, "Thermal", "surf", {"type": "concat", "parts": [top, face]}, kinds=("poly",))
             add(m, "Elastic", "line", rng.choice([top, partial, bnd_rand]), kinds=("poly", "nodal"))
             add(m, "Elastic", "volume", rng.choice([corner, box, rnd]))
             add(m, "Elastic", "pressure", rng.choice([face, top]), kinds=("const",))
@@ -137,6 +147,7 @@ def gen_cases(ctx):
             edge = {"type": "box", "lo": [L, H, 0], "hi": [L, H, T]}
             rnd = {"type": "random", "frac": 0.85, "seed": rng.randrange(1 << 30)}
             add(m, "Elastic", "surf", fx)
+            add(m, "Elastic", "surf", {"type": "concat", "parts": [fx, fz]}, kinds=("const", "poly"))   # shared edge listed twice
             add(m, "Elastic", "surf", rng.choice([fz, two, partial]), kinds=("poly", "nodal"))
             add(m, "Elastic", "volume", rng.choice([two, rnd]), kinds=("const", "poly"))
             add(m, "Elastic", "line", edge, kinds=("poly",))
@@ -146,9 +157,14 @@ def gen_cases(ctx):
     beam = {"kind": "beam", "elemType": "SEG2", "L": 2, "ms": 0.5, "beamDim": 2}
     allb = {"type": "box", "lo": [0, 0, 0], "hi": [2, 0, 0]}
     partb = {"type": "box", "lo": [0.5, 0, 0], "hi": [1.5, 0, 0]}
+    beam3 = {"kind": "beam", "elemType": "SEG2", "L": 2, "ms": 0.5, "beamDim": 3}
+    lists2 = [["y"], ["x"], ["x", "y"], ["y", "x"]]
+    lists3 = [["x", "y", "z"], ["z", "x", "y"], ["y", "z"], ["rx", "z"], ["x", "z"], ["z", "rx", "y", "x"]]
     for sel in (allb, partb):
-        add(beam, "Beam", "line", sel, kinds=("const", "poly", "nodal"), unknowns=["y"])
-        add(beam, "Beam", "line", sel, kinds=("poly",), unknowns=["x"])
+        for ul in lists2:
+            add(beam, "Beam", "line", sel, kinds=("const", "poly", "nodal") if len(ul) > 1 or ul == ["y"] else ("poly",), unknowns=ul)
+    for ul in (lists3 if not quick else rng.sample(lists3, 4)):
+        add(beam3, "Beam", "line", rng.choice([allb, partb]), kinds=("const", "poly"), unknowns=ul)
     # thermal patch: load and conductivity must carry the same thickness
     cases.append({"id": len(cases), "mesh": meshes2[2], "simu": "Thermal", "load": "surf", "vkind": "const",
                   "selection": {"type": "face", "axis": 0, "value": 2}, "thickness": 3.0, "unknowns": ["t"],
@@ -344,9 +360,12 @@ def run(ctx):
                 col = [row[unk.index(u)] for row in Fv]
                 Ri = sum(col)
                 Mi = [sum((coordsf[n][a] - cf[a]) * col[n] for n in range(len(col))) for a in range(3)]
-                if c["simu"] == "Beam" and u == "y":
+                if c["simu"] == "Beam" and u == "y" and "rz" in unk:
                     # Hermitian load vector: nodal moments are part of the first moment about z
                     Mi[0] += sum(row[unk.index("rz")] for row in Fv)
+                if c["simu"] == "Beam" and u == "z" and "ry" in unk:
+                    # w' = -theta_y: nodal moments about y enter with the opposite sign
+                    Mi[0] -= sum(row[unk.index("ry")] for row in Fv)
                 dR = abs(Ri - float(ex["R"][u])) / scale
                 dM = max(abs(Mi[a] - float(ex["M"][u][a])) for a in range(3)) / scale
                 worst = max(worst, min(dR, 1.0), min(dM, 1.0)) if max(dR, dM) <= TOL else worst
@@ -356,7 +375,7 @@ def run(ctx):
                     problems.append(("moment", "unknown %s: first moments about %s: %s, exact %s" % (u, cf, Mi, [float(m) for m in ex["M"][u]])))
             # other dof columns untouched
             for u in unk:
-                if u not in c["unknowns"] and not (c["simu"] == "Beam" and u == "rz") and any(row[unk.index(u)] != 0 for row in Fv):
+                if u not in c["unknowns"] and not (c["simu"] == "Beam" and ((u == "rz" and "y" in c["unknowns"]) or (u == "ry" and "z" in c["unknowns"]))) and any(row[unk.index(u)] != 0 for row in Fv):
                     problems.append(("other-dof", "a load on %s put forces on dof %s" % (c["unknowns"], u)))
         nz = [n for n in ex["zero_nodes"] if any(v != 0 for v in Fv[n])]
         if nz and c["simu"] != "Beam":
